@@ -1038,7 +1038,12 @@ func encodeTextSTL(i string) (o []byte) {
 		if v, ok := stlUnicodeMapping.GetInverse(string(c)); ok {
 			o = append(o, v.(byte))
 		} else if v, ok := stlUnicodeDiacritic.GetInverse(string(c)); ok {
-			o = append(o[:len(o)-1], v.(byte), o[len(o)-1])
+			// The floating diacritic precedes the letter it applies to
+			if len(o) == 0 {
+				o = append(o, v.(byte))
+			} else {
+				o = append(o[:len(o)-1], v.(byte), o[len(o)-1])
+			}
 		} else {
 			o = append(o, byte(c))
 		}
